@@ -52,4 +52,36 @@ PROPS = {
         "trusted_base": M0_TRUST + ["hand-written model MF/Model/Split.lean of split.go"],
         "assumptions": ["termination and absence of runtime panics in parser.go outside the modelled core are not proved: every Parse* call of the predicate runs under recover and a 5 s deadline (partial)"],
     },
+    "C15": {
+        "module": "MF.Props.C15",
+        "theorems": ["MF.Props.C15.quoteBytes_lex", "MF.Props.C15.quoteString_lex", "MF.Props.C15.quoteIdent_lex",
+                     "MF.Props.C15.quoteIdent_unquoted_iff"],
+        "channels": ["QUOTE", "LEX"],
+        "pred": True,
+        "level": "proof",
+        "trusted_base": M0_TRUST + ["hand-written model MF/Model/Quote.lean of token/quote.go; unicode.IsPrint is a universally quantified parameter of every theorem"],
+        "assumptions": ["the QUOTE channel ships Go's unicode.IsPrint verdict for the runes of each request; fmt's %02x/%04x/%08x are modelled (hex2/hex4/hex8) and validated by the channel"],
+    },
+    "C14": {
+        "module": "MF.Props.C14",
+        "theorems": ["MF.Props.C14.keywords_eq", "MF.Props.C14.charclass_eq"],
+        "channels": ["SPEC", "LEX"],
+        "channel_is_property": ["SPEC"],
+        "pred": False,
+        "level": "proof",
+        "trusted_base": M0_TRUST + ["reference lexer MF/Spec/Lexical.lean, written from the GoogleSQL lexical-structure documentation (decisions P1-P4 in its header)",
+                                    "tools/extract (keywords.go, char/is.go) regenerated on every run"],
+        "assumptions": ["the refinement theorem model ⊑ Spec.Lexical is being proved separately; until it is listed under 'theorems' the tie between the lexer and the reference is the SPEC channel (Go token stream vs reference, every explored input)"],
+    },
+    "C19": {
+        "module": "MF.Props.C19",
+        "theorems": ["MF.Props.C19.doc_readable", "MF.Props.C19.pos_go_eq_doc", "MF.Props.C19.walk_go_eq_fields",
+                     "MF.Props.C19.all_kinds_covered"],
+        "channels": ["TREE"],
+        "pred": True,
+        "level": "proof",
+        "trusted_base": ["tools/extract: ast/ast.go (structs, `// pos =`/`// end =` lines via its own POS parser), ast/pos.go, ast/walk_internal.go read into Lean tables on every run; validated by the TREE channel (tables + interpreters reproduce Go's Pos()/End()/Walk on every explored node)",
+                         "MF/Model/PosLang.lean: transcription of tools/util/poslang (interpreter, emitter) and of ast/pos_util.go"],
+        "assumptions": ["the byte-for-byte clause and the EvalPos-vs-compiled clause are finite computations done by the harness on this run (generators executed from the working tree; every node of every explored input)"],
+    },
 }
